@@ -2,6 +2,7 @@ package main
 
 import (
 	"fmt"
+	cpucontrol "github.com/containers/nri-plugins/pkg/resmgr/control/cpu"
 	"sort"
 	"strings"
 	"verifh/sim"
@@ -204,8 +205,44 @@ func (o *oracles) checkC02(rep0 reporter) {
 				ctx := ""
 				if o.lastErr {
 					ctx = " after-failed-" + o.lastKind
+				} else if len(sim.LogLines(markReadmitFailed)) > 0 {
+					// the same undo path, reached through a re-admission that
+					// failed inside Synchronize/Reconfigure (only logged)
+					ctx = " after-failed-readmission"
 				}
 				rep("shared-idle-complete", "shared-idle-complete"+ctx, "balloon %s (cpus %s, shares idle CPUs in same %s) lacks idle CPUs %s of its sharing scope (has %q, idle CPUs are %q)", name(b), b.Cpus, b.ShareIdle, miss, b.SharedIdleCpus, sn.FreeCpus)
+			}
+		}
+	}
+	// every available CPU carries the CPU class of its balloon or else the
+	// idle class (the assignment entry the cpu controller keeps in the cache)
+	{
+		classOf := map[int]string{}
+		for class, ids := range cpucontrol.VerifAssignments(w.cache()) {
+			for _, id := range ids {
+				classOf[id] = class
+			}
+		}
+		want := map[int]string{}
+		owner := map[int]string{}
+		for id := range avail {
+			want[id], owner[id] = sn.IdleCpuClass, "idle"
+		}
+		for i := range sn.Balloons {
+			b := &sn.Balloons[i]
+			for id := range parseSet(b.Cpus) {
+				want[id], owner[id] = b.CpuClass, name(b)
+			}
+		}
+		res.Check("cpu-class-follows-balloon")
+		for _, id := range sortedInts(want) {
+			if got, ok := classOf[id]; !ok || got != want[id] {
+				ctx := ""
+				if o.lastErr {
+					ctx = " after-failed-" + o.lastKind
+				}
+				rep("cpu-class-follows-balloon", "cpu-class-follows-balloon"+ctx, "CPU %d belongs to %s and should carry CPU class %q, the cached class assignment says %q (assigned: %v)", id, owner[id], want[id], got, ok)
+				break
 			}
 		}
 	}
@@ -323,4 +360,13 @@ func (o *oracles) checkC02(rep0 reporter) {
 			rep("nonempty-balloon-size", "nonempty-balloon-size requests"+cause, "balloon %s has %d CPUs (%s) but its containers request %d mCPU", name(b), n, b.Cpus, r)
 		}
 	}
+}
+
+func sortedInts(m map[int]string) []int {
+	out := make([]int, 0, len(m))
+	for k := range m {
+		out = append(out, k)
+	}
+	sort.Ints(out)
+	return out
 }
